@@ -742,6 +742,39 @@ def goroutines_serial(case):
     return []
 
 
+def snapshot_replay(case):
+    """C11: every stored snapshot at version v equals the replay of log operations 1..v (and v is within
+    the log); the user document is the view of that replay at its recorded version, which belongs to a
+    stored snapshot and never decreases; the latest rebuilt state equals the replay of the whole log."""
+    last_ver = {}
+    for idx, (ln, mo) in enumerate(case):
+        io = ln.get("obs", {})
+        if ln.get("k") == "snapcheck":
+            if io.get("panic") or io.get("hang"):
+                return [dict(step=idx, what="snapcheck-failed", detail=dict(msg=io.get("panicMsg")))]
+            for s in io.get("snapshots", []):
+                if not s["ok"] or not s["inLog"]:
+                    return [dict(step=idx, what="snapshot-is-not-log-replay", detail=dict(cmd=strip(ln), snapshot=s))]
+            for u in io.get("users", []):
+                if not u["ok"] or not u["hasSnapshot"]:
+                    return [dict(step=idx, what="user-document-is-not-log-replay", detail=dict(cmd=strip(ln), user=u))]
+                k = u["key"]
+                if u["ver"] < last_ver.get(k, 0):
+                    return [dict(step=idx, what="user-document-version-decreased", detail=dict(cmd=strip(ln), user=u, before=last_ver[k]))]
+                last_ver[k] = u["ver"]
+            for l in io.get("latest", []):
+                if not l["ok"]:
+                    return [dict(step=idx, what="latest-is-not-full-replay", detail=dict(cmd=strip(ln), latest=l))]
+        if ln.get("k") == "store" and isinstance(io.get("store"), dict):
+            for u in io["store"].get("userDocs", []):
+                k = (u["col"], u["key"])
+                if u.get("ver") is not None:
+                    if u["ver"] < last_ver.get(k, 0):
+                        return [dict(step=idx, what="user-document-version-decreased", detail=dict(user=u, before=last_ver[k]))]
+                    last_ver[k] = u["ver"]
+    return []
+
+
 def hash_unique(case):
     """C15: no two timestamps of the exhaustive grid share an identifier key."""
     for idx, (ln, mo) in enumerate(case):
@@ -750,6 +783,6 @@ def hash_unique(case):
     return []
 
 
-ORACLES = dict(hash_unique=hash_unique, goroutines_serial=goroutines_serial, fault_recovers=fault_recovers, enc_roundtrip=enc_roundtrip, patch_target=patch_target, loginv=loginv, sconverge=sconverge, refused_noop=refused_noop,
+ORACLES = dict(hash_unique=hash_unique, snapshot_replay=snapshot_replay, goroutines_serial=goroutines_serial, fault_recovers=fault_recovers, enc_roundtrip=enc_roundtrip, patch_target=patch_target, loginv=loginv, sconverge=sconverge, refused_noop=refused_noop,
                isolation=isolation, notify=notify, contract=contract, corr=corr, spec=spec, converge=converge, err_noop=err_noop, no_panic=no_panic,
                seq_gapless=seq_gapless, list_order=list_order, twin=twin, tx_atomic=tx_atomic)
